@@ -21,9 +21,9 @@ ASSUMPTIONS = ["network: three edge-adjacent lanelets; obstacles with an axis-pa
                "geometric truth: centre in the closed lanelet polygon (per-segment quadrilaterals), occupancy / lanelet intersection "
                "by separating axes",
                "programs of 2 (quick) / 3 (thorough) operations over {assign, remove, add again}"]
-OUTSIDE = ["circular shapes (their exported geometry has half the radius, see C06)", "rotated obstacle shapes", "assignment while reading "
-           "a file (the XML/protobuf readers call the same lookup functions; their round trip is C01/C02)"]
-STUBS = ["shapely-lite / STRtree-lite"]
+OUTSIDE = ["circular shapes (their exported geometry has half the radius, see C06)", "rotated obstacle shapes (except the turning-in-place "
+           "obligations)", "assignment while reading an XML file (the XML reader calls the same functions as the protobuf reader, which is covered)"]
+STUBS = ["shapely-lite / STRtree-lite", "protobuf message stubs (read-with-assignment obligations)"]
 F = ["commonroad/scenario/scenario.py:Scenario.assign_obstacles_to_lanelets", "commonroad/scenario/scenario.py:Scenario._add_static_obstacle_to_lanelets",
      "commonroad/scenario/scenario.py:Scenario._remove_static_obstacle_from_lanelets", "commonroad/scenario/scenario.py:Scenario._add_dynamic_obstacle_to_lanelets",
      "commonroad/scenario/scenario.py:Scenario._remove_dynamic_obstacle_from_lanelets", "commonroad/scenario/scenario.py:Scenario.remove_obstacle",
@@ -82,6 +82,70 @@ def static(V):
         return
     V.prove("static: obstacle gone and registries empty after removal",
             V.And(sc.obstacle_by_id(50) is None, all(50 not in sc.lanelet_network.find_lanelet_by_id(lid).static_obstacles_on_lanelet for lid in LIDS)))
+
+
+def install_shims():
+    from harness import c02
+
+    c02.install_shims()  # message stubs: the protobuf reader is one of the two ways obstacles get assigned
+
+
+def read_back_with_assignment(V, sc):
+    """the scenario as the protobuf reader builds it with lanelet assignment enabled (message passthrough)"""
+    from commonroad.planning.planning_problem import PlanningProblemSet
+    from commonroad.scenario.scenario import ScenarioID
+
+    from harness import c02
+
+    sc.scenario_id = ScenarioID.from_benchmark_id("DEU_Muc-1_2_T-1", "2020a")
+    w = c02.write(V, sc, PlanningProblemSet())
+    data = w._commonroad_msg.SerializeToString()
+    if V.symbolic:
+        m = c02.rp.commonroad_pb2.CommonRoad()
+        m.ParseFromString(data)
+        return c02.rp.CommonRoadFactory.create_from_message(m, True)[0]
+    return c02.rp.ProtobufFileReader(data).open(lanelet_assignment=True)[0]
+
+
+def _mk_read(sym):
+    @obligation("C07", f"read-with-assignment.{sym}-symbolic", functions=F + ["commonroad/common/reader/file_reader_protobuf.py:*Factory.create_from_message"],
+                max_paths={"quick": 6000, "thorough": 30000},
+                bounds=f"a static obstacle and a dynamic obstacle (initial state + 1 trajectory state), the {sym} one at a symbolic position, written to "
+                       "protobuf and read back with lanelet assignment enabled (message passthrough): recorded sets and registries vs. geometry")
+    def ob(V):
+        read_with_assignment(V, sym)
+
+    return ob
+
+
+_mk_read("static")
+_mk_read("dynamic")
+
+
+def read_with_assignment(V, sym):
+    warnings.filterwarnings("ignore")
+    sc = scenario()
+    cs = pos(V, "s") if sym == "static" else (9.0, 2.5)
+    cd = pos(V, "d") if sym == "dynamic" else (9.5, 3.5)
+    shape = Rectangle(3.0, 2.0)
+    sc.add_objects(StaticObstacle(50, ObstacleType.PARKED_VEHICLE, shape, fx.init_state(0, cs[0], cs[1], 0.0)))
+    st1 = st.KSState(time_step=1, position=np.array([9.0, 2.5]), orientation=0.0, velocity=1.0, steering_angle=0.0)
+    sc.add_objects(DynamicObstacle(60, ObstacleType.CAR, shape, fx.init_state(0, cd[0], cd[1], 0.0), TrajectoryPrediction(Trajectory(1, [st1]), shape)))
+    sc2 = read_back_with_assignment(V, sc)
+    so, do = sc2.obstacle_by_id(50), sc2.obstacle_by_id(60)
+    V.prove("both obstacles are read back", so is not None and do is not None)
+    if so is None or do is None:
+        return
+    V.prove("read: static centre-lanelet set = lanelets containing the centre", set_is(V, so.initial_center_lanelet_ids, truth_center(V, cs)))
+    V.prove("read: static shape-lanelet set = lanelets the occupancy intersects", set_is(V, so.initial_shape_lanelet_ids, truth_shape(V, cs)))
+    reg = {lid for lid in LIDS if 50 in sc2.lanelet_network.find_lanelet_by_id(lid).static_obstacles_on_lanelet}
+    V.prove("read: static registries = inverse of the shape assignment", set_is(V, reg, truth_shape(V, cs)))
+    V.prove("read: dynamic centre-lanelet set at the initial step", set_is(V, do.initial_center_lanelet_ids, truth_center(V, cd)))
+    V.prove("read: dynamic shape-lanelet set at the initial step", set_is(V, do.initial_shape_lanelet_ids, truth_shape(V, cd)))
+    regd = {lid for lid in LIDS if 60 in sc2.lanelet_network.find_lanelet_by_id(lid).dynamic_obstacles_on_lanelet.get(0, set())}
+    V.prove("read: dynamic registries at the initial step = inverse of the shape assignment", set_is(V, regd, truth_shape(V, cd)))
+    sla = do.prediction.shape_lanelet_assignment or {}
+    V.prove("read: shape-lanelet set at the trajectory step", set_is(V, sla.get(1), truth_shape(V, (9.0, 2.5))))
 
 
 FIXED = [(2.0, 1.5), (8.0, 1.2), (12.0, 2.0)]  # concrete positions used for the time steps that are not symbolic
